@@ -47,8 +47,11 @@ namespace Dune {
 #if HAVE_LAPACK
       {
         const long int N = matrix.rows();
-        const char jobvl = 'n';
-        const char jobvr = eigenVectors ? 'v' : 'n';
+        // The matrix is handed to LAPACK in row-major order, i.e., LAPACK (column-major)
+        // sees the transposed matrix. The right eigenvectors of the original matrix
+        // are the left eigenvectors of the transposed one.
+        const char jobvl = eigenVectors ? 'v' : 'n';
+        const char jobvr = 'n';
 
 
         // matrix to put into dgeev
@@ -70,14 +73,14 @@ namespace Dune {
 
         const long int lwork = eigenVectors ? 4*N : 3*N;
         auto work = std::make_unique<double[]>(lwork);
-        auto vr = eigenVectors ? std::make_unique<double[]>(N*N) : std::unique_ptr<double[]>{};
+        auto vl = eigenVectors ? std::make_unique<double[]>(N*N) : std::unique_ptr<double[]>{};
 
         // return value information
         long int info = 0;
 
         // call LAPACK routine (see fmatrixev_ext.cc)
         eigenValuesNonsymLapackCall(&jobvl, &jobvr, &N, matrixVector.get(), &N,
-                                    eigenR.get(), eigenI.get(), nullptr, &N, vr.get(), &N, work.get(),
+                                    eigenR.get(), eigenI.get(), vl.get(), &N, nullptr, &N, work.get(),
                                     &lwork, &info);
 
         if( info != 0 )
@@ -95,7 +98,12 @@ namespace Dune {
           for (int i = 0; i < N; ++i) {
             auto& v = (*eigenVectors)[i];
             v.resize(N);
-            std::copy(vr.get() + N*i, vr.get() + N*(i+1), &v[0]);
+            std::copy(vl.get() + N*i, vl.get() + N*(i+1), &v[0]);
+            // For a complex pair LAPACK's left eigenvector u = vl(:,i) + i*vl(:,i+1) satisfies
+            // u^H A^T = lambda u^H, i.e., A conj(u) = lambda conj(u): flip the imaginary part
+            // to keep the convention v(i) = column(i) + i*column(i+1) of right eigenvectors.
+            if (eigenI[i] < 0)
+              v *= -1.0;
           }
         }
       }
